@@ -317,7 +317,7 @@ LOCATIONS = ["http://192.168.1.7:8000/desc.xml", "http://[fe80::1]:8000/desc.xml
 BAD_LOCATIONS = ["http://[fe80::1/", "foo", "http://[fe80::1]:99999/", "http://[fe80::1]:x/", "http://fe80::1]/",
                  "http://[fe80::zz]/", "http://[1.2.3.4]/", "http://[fe80::1]:" + "9" * 4400 + "/", "http:///x", "http://:80/"]
 USNS = ["uuid:device-1::upnp:rootdevice", "uuid:device-1", "UUID:ABC::urn:x", "Uuid:", "uuid", "urn:foo", "uuid:a:b::c::d",
-        "uuid:é::x", ""]
+        "uuid:é::x", "", "uu\u0130d:a::b", "UU\u0131D:a", "\u212auid:a", "uuid:\u212a::k", "\uff55uid:a"]
 SOURCES = [("192.168.1.7", 1900), ("192.168.1.7", 50000), ("fe80::1", 1900, 0, 0), ("fe80::1", 1900, 0, 3),
            ("fe80::1", 4000, 0, 3), ("2001:db8::5", 1900, 0, 0), ("fe80::2", 1900, 7, 12), ("10.0.0.255", 0)]
 LOCALS = [("192.168.1.2", 1900), None, ("fe80::10", 1900, 0, 3)]
